@@ -12,3 +12,15 @@ __CPROVER_ensures(__CPROVER_return_value <= chunk_size)
 __CPROVER_ensures(vf_k < __CPROVER_return_value ==> VF_XWS(((const char *)chunk_buf)[vf_k]))
 __CPROVER_ensures(__CPROVER_return_value < chunk_size ==> !VF_XWS(((const char *)chunk_buf)[__CPROVER_return_value]))
 ;
+
+/* xer_check_tag: classification of one XML tag token against an expected element name, for a token and a name of any
+ * length.  vf_len is a ghost: the length of the NUL-terminated name (need_tag[vf_len] == 0). */
+extern size_t vf_len;
+xer_check_tag_e xer_check_tag(const void *buf_ptr, int size, const char *need_tag)
+__CPROVER_requires(size >= 0 && size <= (1 << 30) && __CPROVER_is_fresh(buf_ptr, (size_t)size))
+__CPROVER_requires(need_tag == 0 || (vf_len <= (1u << 30) && __CPROVER_is_fresh(need_tag, vf_len + 1) && need_tag[vf_len] == 0))
+__CPROVER_assigns()
+__CPROVER_ensures(__CPROVER_return_value >= XCT_BROKEN && __CPROVER_return_value <= XCT_UNKNOWN_BO && __CPROVER_return_value != XCT__UNK__MASK)
+__CPROVER_ensures((size < 2 || ((const char *)buf_ptr)[0] != 0x3c || ((const char *)buf_ptr)[size - 1] != 0x3e) ==> __CPROVER_return_value == XCT_BROKEN)
+__CPROVER_ensures((size >= 3 && ((const char *)buf_ptr)[0] == 0x3c && ((const char *)buf_ptr)[size - 1] == 0x3e && ((const char *)buf_ptr)[1] == 0x2f && __CPROVER_return_value != XCT_BROKEN) ==> ((__CPROVER_return_value & 3) == XCT_CLOSING))
+;
